@@ -351,6 +351,7 @@ RULES = [
     ("C20-R5", "the repository of a root is found by upward search (Repository::discover)", lambda ctx: __import__("extra2").repository_discovered_upwards(ctx)),
     ("X-CANON", "util::canonical_path answers with the path resolved by fs::canonicalize (no shortcut for paths that look canonical) [shared]", lambda ctx: __import__("extra2").canonical_path_is_canonical(ctx)),
     ("C20-R6", "ignore patterns are anchored at the directory holding the ignore file", lambda ctx: r6(ctx)),
+    ("X-ROOTS", "root options: defaults, per-root binding, options kept when a regexp root is expanded (archives, symlinks, depth window) [shared]", lambda ctx: __import__("extra").root_defaults(ctx)),
 ]
 
 EXPLANATION = (
